@@ -293,8 +293,10 @@ package tracing
 //@   label C36.end.inv.placeholder
 //@   ensures forall k uint64 :: c36KPh(t, k, k != task.ID && c36Started[k])
 //@   assigns elems(t.tracingTasks), t.tracingTasks[task.ID].EndTime, c36Cnt, c36Rec, c36Typ, c36Val
+// (the loops only call InsertData: the map and the task objects are not in their write set, so what is known about them
+// before the loops still holds after them; the invariants only carry the log, which InsertData changes)
 //@   label C36.end.loop0.shape
-//@   loop 0: invariant -1 <= rangeindex && rangeindex < len(originalTask.Milestones) && originalTask == c36T0(t, task.ID) && old(task.ID in t.tracingTasks) && originalTask.toRecord && !(task.ID in t.tracingTasks) && c36Others(t, task.ID)
+//@   loop 0: invariant -1 <= rangeindex && rangeindex < len(originalTask.Milestones) && originalTask == c36T0(t, task.ID) && old(task.ID in t.tracingTasks)
 //@   label C36.end.loop0.counts
 //@   loop 0: invariant c36Cnt[traceTableName] == c36N0(traceTableName) + 1 && c36Cnt[milestoneTableName] == c36N0(milestoneTableName) + rangeindex + 1 && c36Cnt[tagTableName] == c36N0(tagTableName) && c36Cnt[segmentTableName] == c36N0(segmentTableName)
 //@   label C36.end.loop0.logkept
@@ -306,7 +308,7 @@ package tracing
 //@   label C36.end.loop0.rows
 //@   loop 0: invariant forall n in 0..rangeindex + 1 :: c36MsRowOK(c36N0(milestoneTableName) + n, old(t.tracingTasks[task.ID].Milestones)[n], ifaceval(t.backend))
 //@   label C36.end.loop1.shape
-//@   loop 1: invariant -1 <= rangeindex && rangeindex < len(originalTask.Tags) && originalTask == c36T0(t, task.ID) && old(task.ID in t.tracingTasks) && originalTask.toRecord && !(task.ID in t.tracingTasks) && c36Others(t, task.ID)
+//@   loop 1: invariant -1 <= rangeindex && rangeindex < len(originalTask.Tags) && originalTask == c36T0(t, task.ID) && old(task.ID in t.tracingTasks)
 //@   label C36.end.loop1.counts
 //@   loop 1: invariant c36Cnt[traceTableName] == c36N0(traceTableName) + 1 && c36Cnt[milestoneTableName] == c36N0(milestoneTableName) + old(len(t.tracingTasks[task.ID].Milestones)) && c36Cnt[tagTableName] == c36N0(tagTableName) + rangeindex + 1 && c36Cnt[segmentTableName] == c36N0(segmentTableName)
 //@   label C36.end.loop1.logkept
